@@ -49,6 +49,14 @@ def plan(prop, tier):
             {"name": "seeded-search", "share": 0.5, "sample_every": 997},
             {"name": "fault-site-enumeration", "share": 0.5, "sample_every": 997, "args": ["--gen", "C14enum"], "seed_offset": 1 << 30},
         ]
+    if prop in ("C13", "C14"):
+        # the same simulator interpreted by Miri: the schedule is still decided by the token scheduler (one
+        # runnable thread at a time), Miri adds an exact oracle for undefined behaviour (reads of uninitialised
+        # memory, double free, use after free) and, for C13, for leaks of any allocation
+        per_child = 5 if tier == "quick" else 45
+        phases.append({"name": "miri-interpreted", "share": 0.0, "count": per_child, "sample_every": 7,
+                       "args": ["--gen", prop + "miri"], "seed_offset": 1 << 31,
+                       "miriflags": "-Zmiri-ignore-leaks" if prop == "C14" else ""})
     return {
         "seconds": seconds,
         "phases": phases,
